@@ -10,7 +10,7 @@
 (* The factory is a function of (registry, preference list, request); it   *)
 (* has no other state, so the specification is a set of definitions.       *)
 (*                                                                         *)
-(*  reg    function: registered name -> engine record                      *)
+(*  reg    function: engine id (positive integer) -> engine record          *)
 (*           [modes  operation modes the class implements (is_<mode>())    *)
 (*            feats  features of supported_kind()                          *)
 (*            plans  plan kinds with supports_plan                         *)
@@ -18,14 +18,14 @@
 (*            opt    optimality guarantees with satisfies                  *)
 (*            any    anytime guarantees with ensures]                      *)
 (*         (READ FROM THE REAL CLASSES by the driver, never written here)   *)
-(*  prefs  the preference list (sequence of registered names)              *)
+(*  prefs  the preference list (sequence of engine ids)                    *)
 (*  r      request [mode, feats, ck, pk, og, ag]; "" = not requested        *)
 (*                                                                         *)
 (* Two layers:                                                             *)
 (*  - Spec layer (the property): Qualifies(e, r) = e implements the mode,  *)
 (*    supports the kind and every requested requirement; Select = the      *)
-(*    first name of the preference list whose engine qualifies, None when  *)
-(*    there is none (<=> UPNoSuitableEngineAvailableException).  A         *)
+(*    first entry of the preference list whose engine qualifies, NoEngine  *)
+(*    when there is none (<=> UPNoSuitableEngineAvailableException).  A         *)
 (*    pipeline for compilation kinds cks is the sequence of Select-ed      *)
 (*    compilers where stage i is asked for the kind produced by stage i-1  *)
 (*    (ChainOK).                                                           *)
@@ -46,7 +46,8 @@ Range(s) == {s[i] : i \in DOMAIN s}
 Modes == {"oneshot_planner", "anytime_planner", "plan_validator", "portfolio_selector", "compiler",
           "sequential_simulator", "replanner", "plan_repairer", "action_selector"}
 
-None == ""     \* no engine / requirement not requested
+None == ""       \* requirement not requested
+NoEngine == 0    \* no engine (engines are identified by positive integers: index in the registry)
 
 Req(mode, feats, ck, pk, og, ag) == [mode |-> mode, feats |-> feats, ck |-> ck, pk |-> pk, og |-> og, ag |-> ag]
 CompReq(feats, ck) == Req("compiler", feats, ck, None, None, None)
@@ -86,7 +87,7 @@ QualIdx(reg, prefs, r) == {i \in DOMAIN prefs : Qualifies(reg[prefs[i]], r)}
 
 Select(reg, prefs, r) ==
    LET q == QualIdx(reg, prefs, r)
-   IN IF q = {} THEN None ELSE prefs[CHOOSE i \in q : \A j \in q : i <= j]
+   IN IF q = {} THEN NoEngine ELSE prefs[CHOOSE i \in q : \A j \in q : i <= j]
 
 \* get_all_applicable_engines: the names of the preference list that qualify
 SelectAll(reg, prefs, r) == {prefs[i] : i \in QualIdx(reg, prefs, r)}
@@ -106,7 +107,7 @@ RECURSIVE PipeFrom(_, _, _, _, _, _, _, _)
 PipeFrom(reg, prefs, rk, cks, i, feats, stages, kinds) ==
    IF i > Len(cks) THEN [k |-> "pipeline", stages |-> stages, kinds |-> kinds, at |-> 0, x |-> ""]
    ELSE LET n == Select(reg, prefs, CompReq(feats, cks[i]))
-        IN IF n = None THEN [k |-> "none", stages |-> stages, kinds |-> Append(kinds, feats), at |-> i, x |-> ""]
+        IN IF n = NoEngine THEN [k |-> "none", stages |-> stages, kinds |-> Append(kinds, feats), at |-> i, x |-> ""]
            ELSE LET out == RK(rk, n, feats, cks[i])
                 IN IF out.k = "exc"
                    THEN [k |-> "rk-raises", stages |-> Append(stages, n), kinds |-> Append(kinds, feats), at |-> i, x |-> out.x]
@@ -142,7 +143,7 @@ ImplSatisfies(e, r) ==
 \* _get_engine_class: scan of the preference list
 RECURSIVE ImplScan(_, _, _, _)
 ImplScan(reg, prefs, r, i) ==
-   IF i > Len(prefs) THEN None
+   IF i > Len(prefs) THEN NoEngine
    ELSE IF ImplSatisfies(reg[prefs[i]], r) THEN prefs[i]
    ELSE ImplScan(reg, prefs, r, i + 1)
 ImplSelect(reg, prefs, r) == ImplScan(reg, prefs, r, 1)
@@ -152,7 +153,7 @@ RECURSIVE ImplPipeFrom(_, _, _, _, _, _, _)
 ImplPipeFrom(reg, prefs, rk, cks, i, feats, stages) ==
    IF i > Len(cks) THEN [k |-> "pipeline", stages |-> stages, at |-> 0]
    ELSE LET n == ImplSelect(reg, prefs, CompReq(feats, cks[i]))
-        IN IF n = None THEN [k |-> "none", stages |-> stages, at |-> i]
+        IN IF n = NoEngine THEN [k |-> "none", stages |-> stages, at |-> i]
            ELSE LET out == RK(rk, n, feats, cks[i])
                 IN IF out.k = "exc" THEN [k |-> "rk-raises", stages |-> Append(stages, n), at |-> i]
                    ELSE ImplPipeFrom(reg, prefs, rk, cks, i + 1, out.f, Append(stages, n))
@@ -161,19 +162,19 @@ ImplPipe(reg, prefs, rk, feats, cks) == ImplPipeFrom(reg, prefs, rk, cks, 1, fea
 -----------------------------------------------------------------------------
 (* judging one recorded answer against the Spec layer: the violated clause ("" if none) *)
 
+\* want = Select(reg, prefs, r) (computed once by the caller)
 \* names = registered names of the class of the returned engine
-EngineClause(reg, prefs, r, names) ==
-   LET want == Select(reg, prefs, r)
-   IN IF names = {} THEN "returned-unregistered-engine"
-      ELSE IF want \in names THEN ""
-      ELSE LET n == CHOOSE x \in names : TRUE
-               lack == Lacks(reg[n], r)
-           IN IF lack # "" THEN lack
-              ELSE IF names \cap Range(prefs) = {} THEN "not-in-preference-list"
-              ELSE "preference-order"
+EngineClause(reg, prefs, r, want, names) ==
+   IF names = {} THEN "returned-unregistered-engine"
+   ELSE IF want \in names THEN ""
+   ELSE LET n == CHOOSE x \in names : TRUE
+            lack == Lacks(reg[n], r)
+        IN IF lack # "" THEN lack
+           ELSE IF names \cap Range(prefs) = {} THEN "not-in-preference-list"
+           ELSE "preference-order"
 
 \* the factory raised UPNoSuitableEngineAvailableException
-NoSuitableClause(reg, prefs, r) == IF Select(reg, prefs, r) = None THEN "" ELSE "no-suitable-raised-but-an-engine-qualifies"
+NoSuitableClause(want) == IF want = NoEngine THEN "" ELSE "no-suitable-raised-but-an-engine-qualifies"
 
 \* get_all_applicable_engines returned the set of names `got`
 AllClause(reg, prefs, r, got) ==
@@ -184,28 +185,19 @@ AllClause(reg, prefs, r, got) ==
       ELSE ""
 
 \* a returned pipeline: stageNames[i] = registered names of the class of the i-th compiler;
-\* walks the specification's chain and names the first stage that departs from it
-RECURSIVE PipeWalk(_, _, _, _, _, _, _)
-PipeWalk(reg, prefs, rk, cks, stageNames, i, feats) ==
-   IF i > Len(cks) THEN <<"", 0>>
-   ELSE LET r == CompReq(feats, cks[i])
-            c == EngineClause(reg, prefs, r, stageNames[i])
-        IN IF c # "" THEN <<"pipeline-stage-" \o c, i>>
-           ELSE LET out == RK(rk, Select(reg, prefs, r), feats, cks[i])
-                IN IF out.k = "exc" THEN <<"pipeline-resulting-kind-raises", i>>
-                   ELSE PipeWalk(reg, prefs, rk, cks, stageNames, i + 1, out.f)
-PipelineClause(reg, prefs, rk, feats, cks, stageNames) ==
-   LET want == Pipe(reg, prefs, rk, feats, cks)
-   IN IF want.k = "rk-raises" THEN <<"pipeline-resulting-kind-raises", want.at>>
-      ELSE IF want.k = "none" THEN
-           IF Len(stageNames) < want.at THEN <<"pipeline-length", Len(stageNames)>>
-           ELSE PipeWalk(reg, prefs, rk, SubSeq(cks, 1, want.at), stageNames, 1, feats)
-      ELSE IF Len(stageNames) # Len(cks) THEN <<"pipeline-length", Len(stageNames)>>
-      ELSE PipeWalk(reg, prefs, rk, cks, stageNames, 1, feats)
+\* want = Pipe(reg, prefs, rk, feats, cks) (computed once by the caller).  Names the first
+\* stage that departs from the specification's chain (want.kinds[i] = kind reaching stage i)
+PipelineClause(reg, prefs, cks, want, stageNames) ==
+   IF want.k = "rk-raises" THEN <<"pipeline-resulting-kind-raises", want.at>>
+   ELSE LET wantAt(i) == IF i <= Len(want.stages) THEN want.stages[i] ELSE NoEngine
+            diff == {i \in 1..Len(want.kinds) : i > Len(stageNames) \/ wantAt(i) \notin stageNames[i]}
+        IN IF diff = {} THEN (IF Len(stageNames) = Len(cks) THEN <<"", 0>> ELSE <<"pipeline-length", Len(stageNames)>>)
+           ELSE LET i == CHOOSE x \in diff : \A y \in diff : x <= y
+                IN IF i > Len(stageNames) THEN <<"pipeline-length", Len(stageNames)>>
+                   ELSE <<"pipeline-stage-" \o EngineClause(reg, prefs, CompReq(want.kinds[i], cks[i]), wantAt(i), stageNames[i]), i>>
 \* the factory raised UPNoSuitableEngineAvailableException for a pipeline request
-PipelineNoSuitableClause(reg, prefs, rk, feats, cks) ==
-   LET want == Pipe(reg, prefs, rk, feats, cks)
-   IN IF want.k = "none" THEN <<"", 0>>
+PipelineNoSuitableClause(want) ==
+      IF want.k = "none" THEN <<"", 0>>
       ELSE IF want.k = "rk-raises" THEN <<"pipeline-resulting-kind-raises", want.at>>
       ELSE <<"no-suitable-raised-but-a-pipeline-exists", 0>>
 =============================================================================
